@@ -35,7 +35,7 @@ EXPLANATION = (
 )
 NONTRIVIAL_RULE = "executed a sequence containing at least one start() and one stop() or terminal status"
 BOUNDS = {
-    "lifecycle_seq": "machine LM; operation sequences of length 3-4 (quick) / 3-5 (thorough), the first one or two operations fixed per item over 9 operations; both engines (sync: blocking child spawn, virtual threads)",
+    "lifecycle_seq": "machine LM; operation sequences of length 3-4 (quick) / 3-5 (thorough), the first one or two operations fixed per item over 11 operations; both engines (sync: blocking child spawn, virtual threads)",
 }
 ASSUMPTIONS = [
     "virtual time (VLoop / vthreading) as in C08; the census counts asyncio tasks of the virtual loop and pending virtual threads, not OS threads",
@@ -43,7 +43,8 @@ ASSUMPTIONS = [
 ]
 WALL_BUDGET = {"quick": 900.0, "thorough": 3300.0}
 
-OPS = ["START", "GO", "SPAWN", "DSEND", "FIN", "FAIL", "STOP", "RESTORE", "ADV"]
+OPS = ["START", "GO", "SPAWN", "DSEND", "FIN", "FAIL", "STOP", "RESTORE", "ADV", "RUDE", "KFIN"]
+SENDS = ("GO", "SPAWN", "DSEND", "FIN", "FAIL", "RUDE", "KFIN")
 CTL: Dict[str, Any] = {}
 _M: Dict[str, Any] = {}
 
@@ -82,6 +83,35 @@ def _boom(i: Any, c: Any, e: Any) -> Any:
     raise RuntimeError("service failed")
 
 
+async def _rude_async(i: Any, c: Any, e: Any) -> Any:
+    """A service that answers cancellation with an ordinary exception."""
+    import asyncio
+
+    try:
+        await asyncio.sleep(0.03)
+    except asyncio.CancelledError:
+        raise ConnectionError("connection dropped while cancelling")
+    return 2
+
+
+def _rude_sync(i: Any, c: Any, e: Any) -> Any:
+    return 2
+
+
+async def _hb_async(i: Any, c: Any, e: Any) -> Any:
+    """Root-level heartbeat of the child: outlives the child's completion
+    unless the child is stopped."""
+    import asyncio
+
+    while True:
+        await asyncio.sleep(0.01)
+        _log("kid.hb")
+
+
+def _hb_sync(i: Any, c: Any, e: Any) -> Any:
+    return None
+
+
 def _machines(eng: int) -> Any:
     key = f"LM{eng}"
     m = _M.get(key)
@@ -93,8 +123,11 @@ def _machines(eng: int) -> Any:
         acts = {n: _act(n) for n in ("A.en", "B.en", "X.en", "late", "svc.done", "kid.tick", "kid.en")}
         kid = create_machine({
             "id": "kid", "initial": "beat",
-            "states": {"beat": {"entry": ["kid.en"], "after": {"10": {"target": "beat", "reenter": True, "actions": ["kid.tick"]}}}},
-        }, logic=make_logic(actions=acts))
+            "invoke": {"src": "hb", "id": "hb"},
+            "on": {"KFIN": "#kid.fin"},
+            "states": {"beat": {"entry": ["kid.en"], "after": {"10": {"target": "beat", "reenter": True, "actions": ["kid.tick"]}}},
+                       "fin": {"type": "final"}},
+        }, logic=make_logic(actions=acts, services={"hb": _hb_sync if eng == 0 else _hb_async}))
         env.pin_hashes(kid)
         spawn = {"type": "spawn_blocking_kid", "params": {"id": "k1", "systemId": "sysK"}} if eng == 0 else A.spawn_child("kid", actor_id="k1", system_id="sysK")
         cfg = {
@@ -107,15 +140,18 @@ def _machines(eng: int) -> Any:
                         "GO": "B", "SPAWN": {"actions": [spawn]},
                         "DSEND": {"actions": [A.raise_({"type": "LATE"}, delay=40)]},
                         "LATE": {"actions": ["late"]},
-                        "FIN": "F", "FAIL": "X",
+                        "FIN": "F", "FAIL": "X", "RUDE": "Y",
+                        "KFIN": {"actions": [A.send_to("sysK", "KFIN")]},
                     },
                 },
                 "B": {"entry": ["B.en"], "after": {"20": "A"}, "on": {"LATE": {"actions": ["late"]}, "FIN": "F", "FAIL": "X"}},
                 "F": {"type": "final"},
                 "X": {"entry": ["X.en"], "invoke": {"src": "boom", "id": "s2"}},
+                "Y": {"invoke": {"src": "rude", "id": "s3"}, "on": {"GO": "B"}},
             },
         }
-        m = create_machine(cfg, logic=make_logic(actions=acts, services={"svc": _svc_sync if eng == 0 else _svc_async, "boom": _boom, "kid": kid}))
+        m = create_machine(cfg, logic=make_logic(actions=acts, services={"svc": _svc_sync if eng == 0 else _svc_async, "boom": _boom, "kid": kid,
+                                                                      "rude": _rude_sync if eng == 0 else _rude_async}))
         env.pin_hashes(m)
         _M[key] = m
     return m
@@ -212,7 +248,7 @@ def _run_sync(ops: List[str]) -> Optional[str]:
                     return f"start() raised a library error in status {before}"
             if before in ("running", "done", "error") and (_snapshot_state(it) != pre or len(CTL["log"]) != nlog):
                 return f"start() in status {before} is not idempotent: {pre} -> {_snapshot_state(it)}"
-        elif op in ("GO", "SPAWN", "DSEND", "FIN", "FAIL"):
+        elif op in SENDS:
             it.send(op)
             if before != "running":
                 if _snapshot_state(it) != pre or len(CTL["log"]) != nlog or len(it._event_queue) != 0:
@@ -222,6 +258,8 @@ def _run_sync(ops: List[str]) -> Optional[str]:
             it.stop()
             if before == "uninitialized" and it.status != "uninitialized":
                 return f"stop() before start() changed status to {it.status}"
+            if before != "uninitialized" and it.status != "stopped":
+                return f"stop() returned with status {it.status}"
             if before == "stopped" and len(CTL["log"]) != nlog:
                 return "second stop() did something"
         elif op == "RESTORE":
@@ -303,7 +341,7 @@ def _run_async(ops: List[str]) -> Optional[str]:
                 if it.status == "running" and not it.is_running:
                     box["why"] = "status is running after start() but no live event loop task"
                     return
-            elif op in ("GO", "SPAWN", "DSEND", "FIN", "FAIL"):
+            elif op in SENDS:
                 qs = it._event_queue.qsize()
                 await it.send(op)
                 await settle(it)
@@ -318,6 +356,9 @@ def _run_async(ops: List[str]) -> Optional[str]:
                 await it.stop()
                 if before == "uninitialized" and it.status != "uninitialized":
                     box["why"] = f"stop() before start() changed status to {it.status}"
+                    return
+                if before != "uninitialized" and it.status != "stopped":
+                    box["why"] = f"stop() returned with status {it.status} (error={it.error!r})"
                     return
                 if before == "stopped" and len(CTL["log"]) != nlog:
                     box["why"] = "second stop() did something"
@@ -361,6 +402,9 @@ def _run_async(ops: List[str]) -> Optional[str]:
                 await asyncio.sleep(0.1)
                 if len(CTL["log"]) != n0:
                     box["why"] = f"activity after stop(): {CTL['log'][n0:]}"
+                    return
+                if it.status != "stopped":
+                    box["why"] = f"status changed to {it.status} after stop() had returned"
                     return
         await it.stop()
         await asyncio.sleep(0.05)
